@@ -269,7 +269,21 @@ def style_job(job):
     warnings.simplefilter("ignore")
     from numbers_parser import BackgroundImage, Document, Style
     rng = random.Random(seed)
-    sets = dict(zip(["A", "B"], attr_sets(rng, 2)))
+    sets = dict(zip(["A", "B", "C", "D"], attr_sets(rng, 4)))
+    # where the two cells live: in one table, or the second one in a table added to the sheet / on an added sheet
+    layout = idx % 3
+    where = {"c1": (0, 0), "c2": [(0, 0), (0, 1), (1, 0)][layout]}
+
+    def new_doc():
+        d = Document(num_rows=2, num_cols=2, num_header_rows=0, num_header_cols=0)
+        if layout == 1:
+            d.sheets[0].add_table("Second", num_rows=2, num_cols=2, num_header_rows=0, num_header_cols=0)
+        elif layout == 2:
+            d.add_sheet("Other", "Third", 2, 2)
+        return d
+
+    def tab(d, c):
+        return d.sheets[where[c][0]].tables[where[c][1]]
     if twin:
         # near twins: B differs from A in exactly one attribute - the hard case for anything that shares or de-duplicates style records
         other = sets["B"]
@@ -283,30 +297,28 @@ def style_job(job):
             other = attr_sets(rng, 1)[0]
         sets["B"] = dict(sets["A"])
         sets["B"][twin] = other[twin]
-    doc = Document(num_rows=2, num_cols=2, num_header_rows=0, num_header_cols=0)
-    tb = doc.sheets[0].tables[0]
+    doc = new_doc()
     pos = {"c1": (0, 0), "c2": (1, 1)}
     for c, (r, k) in pos.items():
-        tb.write(r, k, "cell " + c)
-    base = {c: style_tuple(tb.cell(*pos[c]).style) for c in pos}
+        tab(doc, c).write(r, k, "cell " + c)
+    base = {c: style_tuple(tab(doc, c).cell(*pos[c]).style) for c in pos}
     # the observation of defaults above must not itself disturb the document: start from a fresh one
-    doc = Document(num_rows=2, num_cols=2, num_header_rows=0, num_header_cols=0)
-    tb = doc.sheets[0].tables[0]
+    doc = new_doc()
     for c, (r, k) in pos.items():
-        tb.write(r, k, "cell " + c)
+        tab(doc, c).write(r, k, "cell " + c)
     want = {}
     names = {}
     path = os.path.join(scratch, "st-%d-%d.numbers" % (os.getpid(), idx))
 
-    def token(t, c):
-        tup = style_tuple(t.cell(*pos[c]).style)
+    def token(d, c):
+        tup = style_tuple(tab(d, c).cell(*pos[c]).style)
         for k, tu in want.items():
             if tup == tu:
                 return k
         if tup == base[c]:
             return "default"
         return "?:" + json.dumps(tup)[:200]
-    trace = {"ev": [], "meta": {"ops": ops, "idx": idx, "twin": twin}}
+    trace = {"ev": [], "meta": {"ops": ops, "idx": idx, "twin": twin, "layout": layout}}
     nimg = 0
     for op in ops:
         e = dict(op)
@@ -326,6 +338,7 @@ def style_job(job):
             elif op["op"] == "apply":
                 st = names[op["nm"]]
                 e["name"] = op["nm"]
+                tb = tab(doc, op["c"])
                 if rng.random() < 0.5:
                     tb.set_cell_style(*pos[op["c"]], st)
                 elif rng.random() < 0.5:
@@ -333,20 +346,19 @@ def style_job(job):
                 else:
                     tb.write(*pos[op["c"]], "cell " + op["c"], style=st)
             elif op["op"] == "read":
-                e["seen"] = token(tb, op["c"])
-                _ = tb.cell(*pos[op["c"]]).border
+                e["seen"] = token(doc, op["c"])
+                _ = tab(doc, op["c"]).cell(*pos[op["c"]]).border
             elif op["op"] == "save":
                 e["exc"] = ""
                 try:
                     doc.save(path)
-                    t2 = Document(path).sheets[0].tables[0]
-                    e["re"] = {c: token(t2, c) for c in pos}
+                    d2 = Document(path)
+                    e["re"] = {c: token(d2, c) for c in pos}
                 except Exception as ex:  # noqa: BLE001
                     e["exc"] = "%s:%s" % (type(ex).__name__, str(ex)[:80])
                     e["re"] = {c: "EXC" for c in pos}
             elif op["op"] == "reopen":
                 doc = Document(path)
-                tb = doc.sheets[0].tables[0]
                 new_names, seen_named = {}, {}
                 for k, v in names.items():
                     st = doc.styles.get(v.name)
@@ -376,7 +388,7 @@ def TB_CFG(n):
     return 'CONSTANTS N = %d\nValues = {"a", "b", "old"}\nMaxStrokes = 99\nBug = "none"\nSPECIFICATION TSpec\nINVARIANT Done\nCHECK_DEADLOCK FALSE\n' % n
 
 
-TS_CFG = 'CONSTANTS Cells = {"c1", "c2"}\nAttrs = {"A", "B"}\nMaxOps = 99\nBug = "none"\nSPECIFICATION TSpec\nINVARIANT Done\nCHECK_DEADLOCK FALSE\n'
+TS_CFG = 'CONSTANTS Cells = {"c1", "c2"}\nAttrs = {"A", "B", "C", "D"}\nMaxOps = 99\nBug = "none"\nSPECIFICATION TSpec\nINVARIANT Done\nCHECK_DEADLOCK FALSE\n'
 
 
 def dump_histories(ctx, module, cfgtext, what):
@@ -499,6 +511,18 @@ def run(ctx):
         for k, a in enumerate(ATTRS):
             sjobs.append((100000 + j * 100 + k, [dict(o) for o in h], ctx.seed * 7 + j * 100 + k, ctx.scratch, a))
     ctx.extra["twin_style_cases"] = len(twins) * len(ATTRS)
+    # longer directed histories of Styles.tla with four attribute sets: both cells styled, saved, reopened, then two NEW styles applied and
+    # saved again (style records allocated after the document has been through a file; cells in one or in two tables, see `layout`)
+    for j in range(9 if q else 90):
+        n1, n2 = ("AUTO", "Named") if j % 2 else ("Named", "AUTO")
+        r1, r2 = ("Custom Style 1", "Named") if j % 2 else ("Named", "Custom Style 1")
+        h = [{"op": "add", "nm": n1, "a": "A"}, {"op": "add", "nm": "AUTO", "a": "B"}]
+        second = "Custom Style 2" if j % 2 else "Custom Style 1"
+        h += [{"op": "apply", "nm": r1 if j % 2 else "Named", "c": "c1"}, {"op": "apply", "nm": second, "c": "c2"}, {"op": "save"}, {"op": "reopen"}]
+        third, fourth = ("Custom Style 3", "Custom Style 4") if j % 2 else ("Custom Style 2", "Custom Style 3")
+        h += [{"op": "add", "nm": "AUTO", "a": "C"}, {"op": "add", "nm": "AUTO", "a": "D"}, {"op": "apply", "nm": third, "c": "c1"}, {"op": "apply", "nm": fourth, "c": "c2"},
+              {"op": "save"}, {"op": "read", "c": "c1"}, {"op": "save"}]
+        sjobs.append((300000 + j, h, ctx.seed * 11 + j, ctx.scratch, None))
     strs = fixtures.pmap(style_job, sjobs, ctx.workers, chunksize=4)
     ctx.evaluations += len(strs)
     for t in strs:
